@@ -155,7 +155,8 @@ class ParserSessionProp(object):
                            'at': rng.choice([1, 1, 2, 3, 5, 8, 13, 30])}
         else:
             op['fault'] = {'kind': 'F7',
-                           'what': rng.choice(['tag_width', 'dep_shape', 'length_mismatch', 'rows']),
+                           'what': rng.choice(['tag_width', 'dep_shape', 'length_mismatch', 'rows',
+                                               'scores_not_a_list', 'doc_not_nested', 'categories_longer']),
                            'pos': rng.randrange(len(op['batch']))}
             op.pop('single', None)
 
@@ -193,6 +194,17 @@ class ParserSessionProp(object):
             elif fault['what'] == 'rows':
                 from depccg.types import Token
                 doc[pos] = doc[pos] + [Token.of_word('extra')]
+            elif fault['what'] == 'scores_not_a_list':
+                scores = scores[pos]                     # many sentences, one ScoringResult
+                if len(doc) == 1:
+                    doc = doc + doc
+            elif fault['what'] == 'doc_not_nested':
+                doc = doc[pos]                           # one sentence, many ScoringResults
+                if len(scores) == 1:
+                    scores = scores + scores
+            elif fault['what'] == 'categories_longer':
+                from depccg.cat import Category
+                kwargs['categories_override'] = list(world.categories) + [Category.parse('ZZZ')]
             kwargs['doc_override'] = doc
             kwargs['scores_override'] = scores
         if op.get('executor_mode') and executor_mode == 'inprocess':
